@@ -90,6 +90,42 @@ def run(ctx):
             main = l
     if main is None:
         raise AnalysisError('anchor-lost role=loop over recording ids')
+    # the run ends when the ids are exhausted (or the consumer closes it), never by its own decision: a `return` / `break` inside the loop
+    # leaves every later id without a comparison
+    def _own_exits(stmts, in_loop=False):
+        for st_ in stmts:
+            if isinstance(st_, (ast.FunctionDef, ast.AsyncFunctionDef, ast.ClassDef)):
+                continue
+            if isinstance(st_, ast.Return) or (isinstance(st_, ast.Break) and not in_loop):
+                yield st_
+            for fld in ('body', 'orelse', 'finalbody'):
+                for y in _own_exits(getattr(st_, fld, []) or [], in_loop or isinstance(st_, (ast.For, ast.While))):
+                    yield y
+            for h_ in getattr(st_, 'handlers', []) or []:
+                for y in _own_exits(h_.body, in_loop):
+                    yield y
+    early = list(_own_exits(main.body))
+    ca.instance('the loop over the ids is left only when the ids are exhausted (no return / break inside)', runc.qualname, not early)
+    for x in early[:1]:
+        res.add(Finding('C08', 'C08.a', 'R-TYPESTATE', runc.file, runc.qualname, x.lineno, norm(x)[:60],
+                        'the run over the recording ids can stop on its own (`%s` inside the loop): every id after that point gets no comparison at all' % norm(x)[:40]))
+    # every handler around the per-recording work answers with a comparison (or lets the error go on to one that does): a handler that
+    # only logs ends the iteration without a verdict for that id
+    from .common import every_return_passes as _erp
+    mute = []
+    for t_ in [x for x in ast.walk(main) if isinstance(x, ast.Try)]:
+        if not any(isinstance(y, (ast.Yield, ast.YieldFrom)) for y in ast.walk(t_)):
+            continue        # a try around a step that is not the one producing the verdict
+        for h_ in t_.handlers:
+            fake = ast.FunctionDef(name='h', args=None, body=h_.body, decorator_list=[])
+            okh_, at_ = _erp(fake, lambda x: isinstance(x, (ast.Yield, ast.YieldFrom)))
+            if not okh_:
+                mute.append((h_, at_))
+    ca.instance('every handler around the per-recording work yields a comparison or re-raises', runc.qualname, not mute)
+    for h_, at_ in mute[:1]:
+        res.add(Finding('C08', 'C08.a', 'R-TYPESTATE', runc.file, runc.qualname, h_.lineno, 'except %s' % (norm(h_.type) if h_.type is not None else ''),
+                        'the handler `except %s` inside the loop over the ids can end without yielding a comparison: the recording it was handling gets no '
+                        'verdict (the consumer sees fewer comparisons than ids)' % (norm(h_.type) if h_.type is not None else '')))
     idvar = None
     for x in ast.walk(main.target):
         if isinstance(x, ast.Name) and 'id' in x.id:
